@@ -377,6 +377,11 @@ def generate(seed, run, tier):
     if crng.random() < 0.02 and events:
         pos = srng.randrange(len(events) + 1)
         events.insert(pos, {"op": "flood", "n": crng.choice([4200, 8300]), "c": "R9", "t": 0})
+    if crng.random() < 0.06 and events:
+        # elsewhere in the process a plain TrieDict holds nested valued keys and is
+        # pruned: the set's own trie shares nothing with it
+        pos = srng.randrange(len(events) + 1)
+        events.insert(pos, {"op": "foreign_prune", "c": "X"})
     return {"config": config, "events": events}
 
 
@@ -659,6 +664,19 @@ class Run(object):
         elif op == "match":
             self.check_match(t, ev["host"], ev.get("hows", ["plain"]), ev["form"], op)
             stats.event("%s|match|%s|%s" % (ev.get("c"), canon(ev["host"]), ev["form"]))
+        elif op == "foreign_prune":
+            from ural.classes import TrieDict
+
+            other = TrieDict()
+            labels = list(self.cfg.get("alphabet") or ["a", "b"])
+            a, b = labels[0], labels[-1]
+            other[[a, b]] = "foreign-1"
+            other[[a, b, a]] = "foreign-2"
+            other[[b, a, b, a]] = "foreign-3"
+            other.set_and_prune_if_shorter([a], "foreign-4")
+            other.set_and_prune_if_shorter([b], "foreign-5")
+            stats.probe("foreign_instance_pruned")
+            stats.event("X|foreign_prune")
         elif op == "flood":
             # thousands of distinct hostnames (more than a bounded cache holds)
             n = min(int(ev.get("n", 0)), 20000)
@@ -673,6 +691,19 @@ class Run(object):
             stats.probe("flood_of_distinct_lookups")
             stats.event("%s|flood|%d" % (ev.get("c"), n))
             self.sweep(t, "flood", force=True)
+        elif op == "foreign_prune":
+            from ural.classes import TrieDict
+
+            other = TrieDict()
+            labels = list(self.cfg.get("alphabet") or ["a", "b"])
+            a, b = labels[0], labels[-1]
+            other[[a, b]] = "foreign-1"
+            other[[a, b, a]] = "foreign-2"
+            other[[b, a, b, a]] = "foreign-3"
+            other.set_and_prune_if_shorter([a], "foreign-4")
+            other.set_and_prune_if_shorter([b], "foreign-5")
+            stats.probe("foreign_instance_pruned")
+            stats.event("X|foreign_prune")
         elif op == "flood":
             # thousands of distinct hostnames (more than a bounded cache holds)
             n = min(int(ev.get("n", 0)), 20000)
